@@ -411,6 +411,12 @@ class MibCompiler(object):
                 if mibname in parsedMibs or requested and sourceAnswered:
                     # a file name: the modules found under it, here or in
                     # another file, carry the statuses
+                    if sourceFailed and mibname in failedMibs:
+                        del failedMibs[mibname]
+
+                        if processed.get(mibname) == statusFailed:
+                            del processed[mibname]
+
                     continue
 
                 exc = error.PySmiError('MIB source %s not found' % mibname)
